@@ -127,12 +127,49 @@ def targets(props, ids):
     return res
 
 
-def gen(pid, names, files):
+def body_ranges(text):
+    """[(label, first, last)] line ranges of every brace block that looks like a function body (a '{' line or line end preceded by
+    a ')' [const] [noexcept] [override] line) — used by --whole-file"""
+    lines = text.split("\n")
+    out = []
+    i = 0
+    n = len(lines)
+    while i < n:
+        code = lines[i].split("//")[0].rstrip()
+        prev = lines[i - 1].split("//")[0].rstrip() if i > 0 else ""
+        opens_here = code.strip() == "{" and re.search(r"\)\s*(const)?\s*(noexcept(\(.*\))?)?\s*(override|final)?\s*$", prev) and \
+            not re.match(r"^\s*(if|for|while|switch|else|do|QUILL_CATCH|QUILL_TRY|catch)\b", prev)
+        inline = re.search(r"\)\s*(const)?\s*(noexcept(\(.*\))?)?\s*(override|final)?\s*\{\s*[^}]*$", code) and \
+            not re.match(r"^\s*(if|for|while|switch|else|do|QUILL_CATCH|catch)\b", code) and code.strip() != "{"
+        if opens_here or inline:
+            depth, k, started = 0, i, False
+            while k < n:
+                s_ = re.sub(r'"(\\.|[^"\\])*"', '""', lines[k].split("//")[0])
+                s_ = re.sub(r"'(\\.|[^'\\])'", "''", s_)
+                for ch in s_:
+                    if ch == "{":
+                        depth += 1
+                        started = True
+                    elif ch == "}":
+                        depth -= 1
+                if started and depth == 0:
+                    break
+                k += 1
+            m = re.search(r"([~\w]+)\s*\([^()]*(\([^()]*\)[^()]*)*\)[^()]*$", prev if opens_here else code.split("{")[0])
+            label = m.group(1) if m else "?"
+            if k > i + 1:
+                out.append((label, i + 1, k - 1))
+                i = k
+        i += 1
+    return out
+
+
+def gen(pid, names, files, whole=False):
     out = []
     for p in files:
         text = open(p).read()
         lines = text.split("\n")
-        for (nm, a, b) in func_ranges(text, names):
+        for (nm, a, b) in (body_ranges(text) if whole else func_ranges(text, names)):
             for ln in range(a, b + 1):
                 for (kind, new) in mutants_of_line(lines[ln]):
                     if new != lines[ln]:
@@ -190,6 +227,7 @@ def main():
     ap.add_argument("--kinds", default="")
     ap.add_argument("--file", default="", help="only mutants in files whose path contains this text")
     ap.add_argument("--fns", default="", help="extra function names (comma separated) added to every property's targets")
+    ap.add_argument("--whole-file", action="store_true", help="mutate every function body of the anchor files, not only the anchored functions")
     ap.add_argument("--union", action="store_true", help="run every check anchored at the mutant's file; a mutant survives only if none reports it")
     a = ap.parse_args()
     props = [json.loads(l) for l in open(os.path.join(VERIF, "properties.jsonl"))]
@@ -199,7 +237,7 @@ def main():
     for pid in ids:
         names, files = tg[pid]
         names = sorted(set(names) | set(x for x in a.fns.split(",") if x))
-        ms = [m for m in gen(pid, names, files) if a.file in m["file"]]
+        ms = [m for m in gen(pid, names, files, whole=a.whole_file) if a.file in m["file"]]
         if a.kinds:
             ms = [m for m in ms if m["kind"] in a.kinds.split(",")]
         fns = sorted(set((m["file"], m["fn"]) for m in ms))
